@@ -745,7 +745,7 @@ func (m *c18Mat) execute(spec c18Spec) *c18Exec {
 		case "stale":
 			fb.writeLock(time.Hour)
 		case "live":
-			fb.writeLock(0)
+			fb.writeLock(-time.Hour) // refreshed "in an hour": fresh however slowly this machine gets to the Lock call
 		}
 	}
 	tr := &c18Trace{}
